@@ -42,6 +42,41 @@ CHECKS = {
   design_ref="DESIGN.md §4 C19",
   technique="proptest generators + reference-model differential / validity predicate",
   note=TRUST + "; undocumented meanings (amount orientation, cancelled types, missing confirmation time) accepted under any reading"),
+ "C02": dict(
+  engine="world",
+  category="exploration",
+  text="Model-based scenarios bring a wallet (generated history) to 'reply in hand' in 5 flows; the reply is delivered honest or with one of 22 structural mutation kinds. Ok => the returned transaction must validate under consensus rules, carry the agreed fee, spend exactly the reserved inputs, return exactly the recorded change, equal the stored transaction byte for byte, and (honest) be accepted in a block by the real chain; Err => the transaction is still cancellable and its inputs return. Exploration over sampled (flow x mutation x args) combinations.",
+  design_ref="DESIGN.md §4 C02",
+  technique="model-based scenarios (proptest) + reply mutation (metamorphic) + consensus validation oracle",
+  note=TRUST + "; Transaction::validate and Chain::process_block are ground truth; mutations never use the counterparty's secrets"),
+ "C09": dict(
+  engine="pbt+fuzz",
+  category="exploration",
+  text="Structured-mutation property test (60k cases => ~680k inputs, ~1.9M entry-point calls per quick run) over every external decoding entry point incl. both JSON-RPC handlers driven in-process and ciphertexts validly encrypted to the wallet with malformed plaintext; oracle: returns Ok/Err without unwinding and a rejected input leaves the raw wallet DB unchanged. Thorough tier adds coverage-guided libFuzzer campaigns (harness/fuzz, 5 targets).",
+  design_ref="DESIGN.md §4 C09",
+  technique="proptest structured mutation of valid encodings + libFuzzer targets, totality oracle + state diff",
+  note=TRUST + "; inputs <= 64 KiB in the property test; hang/alloc bounds via watchdog and libFuzzer limits; two panics inside upstream crates are open known findings"),
+ "C10": dict(
+  engine="pbt",
+  category="exploration",
+  text="Round-trip with every recipient key, refusal with every non-recipient identity (other wallets, other derivation indices, other account, random keys), plaintext-leak search over binary and JSON forms, single-byte edits at every position of the encrypted container re-armored with a correct check code, and single-character edits of unencrypted armor with an independent SHA-256d recomputation.",
+  design_ref="DESIGN.md §4 C10",
+  technique="proptest generators + round-trip / negative-key / needle-search / tamper oracles",
+  note=TRUST + "; age 0.7 and the 32-bit armor check code are trusted (true collisions are recognised and reported as such)"),
+ "C13": dict(
+  engine="pbt",
+  category="exploration",
+  text="Stateful sessions against an in-process OwnerAPIHandlerV3 (no sockets): key exchange / re-init, encrypted calls under current, superseded and random keys with envelope tampering, plaintext calls, batches, garbage; the harness decides 'authenticated' itself (secp256k1 ECDH + ring AES-256-GCM) and requires error + no ciphertext + no wallet data + unchanged raw DB/session state for everything else, and a reply under the same key for authenticated requests. ~92k evaluations per quick run; a libFuzzer target exists for the thorough tier.",
+  design_ref="DESIGN.md §4 C13",
+  technique="stateful proptest sessions + independent AEAD authentication oracle + snapshot diff",
+  note=TRUST + "; ring AES-GCM as reference; an authenticated ciphertext in an unusual envelope may have either outcome"),
+ "C14": dict(
+  engine="pbt",
+  category="exploration",
+  text="Every token-taking owner method (table checked against owner_rpc.rs at start-up) x wrong tokens (absent, other wallet's, generated bit flip, random) x 4 wallet states: raw DB + active account unchanged, key-using methods return InvalidKeychainMask; masked-with-right-token vs unmasked differential over generated op sequences; closed-wallet refusal and re-open.",
+  design_ref="DESIGN.md §4 C14",
+  technique="proptest + exhaustive method table + masked/unmasked differential oracle",
+  note=TRUST + "; the unmasked reference is the same wallet directory opened without mask on a separate world copy"),
 }
 
 hooks_commits = subprocess.run(["git", "-C", "/repo", "log", "--format=%h %s"], stdout=subprocess.PIPE, text=True).stdout.splitlines()
@@ -74,7 +109,7 @@ m = {
   "add_only": True,
  },
  "engines": [
-  {"name": "pbt", "path": "harness/src/rt.rs + harness/src/props", "serves_properties": [p for p in ids if p in CHECKS and CHECKS[p]["engine"] == "pbt"], "kind_free_text": "proptest strategies driven per case by TestRunner with a seed derived from (VERIF_SEED, property, part, tier, index); shrinking yields the replay file"},
+  {"name": "pbt", "path": "harness/src/rt.rs + harness/src/props", "serves_properties": [p for p in ids if p in CHECKS and CHECKS[p]["engine"].startswith("pbt")], "kind_free_text": "proptest strategies driven per case by TestRunner with a seed derived from (VERIF_SEED, property, part, tier, index); shrinking yields the replay file"},
   {"name": "world", "path": "harness/src/world.rs + node.rs + snap.rs", "serves_properties": [p for p in ids if p in CHECKS and CHECKS[p]["engine"] == "world"], "kind_free_text": "stateful model-based: real grin chain + real LMDB wallets + thread-free node client, op sequences interpreted against the real API with invariants after every step"},
  ],
  "checks": checks,
